@@ -127,6 +127,9 @@ func (f *futureProcess[M]) Forward(refs ...*prc.ProcessId) {
 
 func (f *futureProcess[M]) Initialize(rc *prc.ResourceController, id *prc.ProcessId) {
 	f.rc = rc
+	// the reference must be in place before the timer can exist: with a timeout shorter than the scheduling delay of the
+	// creating goroutine the timer's Close would otherwise unregister a nil reference and crash the process
+	f.ref = id
 	if f.timeout > 0 {
 		f.timer = time.AfterFunc(f.timeout, func() {
 			f.Close(ErrorFutureTimeout)
